@@ -12,31 +12,26 @@ from props import c01, c03
 
 LEVEL = "fault_enumeration"
 
-def run(ctx):
+def crash_part(ctx, name, traces, maxs, maxp, mode=None, report=None):
+    """crash-point enumeration on the last step of TLC-generated Node scripts + CrashTrace.tla validation of every record;
+    mode "fin": only steps that raise the finalized height (used by C04).  report(key, what, replay) receives violations."""
     binp = ctx.go_build("./cmd/c13")
-    r1 = ctx.tlc("MCCrash", "Crash_onebatch", workers=2, timeout=300)
-    if r1["violation"]:
-        raise Inconclusive("Crash.tla: the one-batch shape violates AtomicRecovery at spec level")
-    r2 = ctx.tlc("MCCrash", "Crash_diffseparate", workers=2, timeout=300, check=False)
-    if not ctx.violations and (not r2["violation"]):
-        raise Inconclusive("Crash.tla control (separate diff write) does not violate AtomicRecovery: model is vacuous")
+    report = report or ctx.violation
     if ctx.replay:
         d = json.load(open(ctx.replay))["replay"]
-        sf = ctx.path("replay.ndjson"); open(sf, "w").write(json.dumps(dict(script=d["script"])) + "\n")
+        sf = ctx.path(name + "_replay.ndjson"); open(sf, "w").write(json.dumps(dict(script=d["script"])) + "\n")
     else:
-        traces = 120 if ctx.tier == "quick" else 1200
-        sf, n = c03.generate(ctx, "sim13", traces, 14, ctx.seed + 7, DumpEvery=3)
-    cf = ctx.path("c13_cfg.json"); json.dump(dict(c03.HCFG, network=False), open(cf, "w"))
-    of = ctx.path("c13_res.json"); tf = ctx.path("c13_trace.ndjson")
-    maxs, maxp = ("250", "40") if ctx.tier == "quick" else ("3000", "60")
-    p = ctx.run([binp, sf, cf, of, tf, maxs, maxp], timeout=3000)
+        sf, n = c03.generate(ctx, name, traces, 14, ctx.seed + 7, DumpEvery=3)
+    cf = ctx.path(name + "_cfg.json"); json.dump(dict(c03.HCFG, network=False), open(cf, "w"))
+    of = ctx.path(name + "_res.json"); tf = ctx.path(name + "_trace.ndjson")
+    p = ctx.run([binp, sf, cf, of, tf, str(maxs), str(maxp)] + ([mode] if mode else []), timeout=3000)
     if not os.path.exists(of):
         raise Inconclusive("c13 harness failed (rc=%d): %s" % (p.returncode, p.stderr[-1500:]))
     res = json.load(open(of))
     if res.get("harness_errors"):
         raise Inconclusive("c13 harness error: %s" % res["harness_errors"][:2])
     for v in res.get("violations") or []:
-        ctx.violation(v["key"], v["what"], v.get("replay"))
+        report(v["key"], v["what"], v.get("replay"))
     lines = open(tf).read().splitlines()
     r = ctx.tlc("CrashTrace", "CrashTrace", workers=1, timeout=1200, files={"trace.ndjson": tf})
     if r["distinct"] - 1 != len(lines):
@@ -47,7 +42,19 @@ def run(ctx):
         e = json.loads(lines[int(ln) - 1])
         key = ("partial-step:" + e["kind"]) if tag == "partial-step" else ("recovery:" + e["kind"] + ":" + (e["inv"][0].split(":")[0] if e["inv"] else "?"))
         if key not in reported:
-            ctx.violation(key, "crash record rejected by CrashTrace.tla: %s" % json.dumps(e)[:400], dict(record=e))
+            report(key, "crash record rejected by CrashTrace.tla: %s" % json.dumps(e)[:400], dict(record=e))
+    return res, lines, reported
+
+def run(ctx):
+    r1 = ctx.tlc("MCCrash", "Crash_onebatch", workers=2, timeout=300)
+    if r1["violation"]:
+        raise Inconclusive("Crash.tla: the one-batch shape violates AtomicRecovery at spec level")
+    r2 = ctx.tlc("MCCrash", "Crash_diffseparate", workers=2, timeout=300, check=False)
+    if not ctx.violations and (not r2["violation"]):
+        raise Inconclusive("Crash.tla control (separate diff write) does not violate AtomicRecovery: model is vacuous")
+    traces = 120 if ctx.tier == "quick" else 1200
+    maxs, maxp = (250, 40) if ctx.tier == "quick" else (3000, 60)
+    res, lines, reported = crash_part(ctx, "sim13", traces, maxs, maxp)
     log("[c13] scripts=%d crash points=%d by kind %s pre=%d post=%d violations=%s" % (res["scripts"], res["crash_points"], res["steps_by_kind"],
         res["recovered_pre_state"], res["recovered_post_state"], sorted(reported)))
     if not ctx.violations and (res["crash_points"] < 50 or res["recovered_post_state"] == 0 or res["recovered_pre_state"] == 0 or len(res["steps_by_kind"]) < 2):
